@@ -4,40 +4,315 @@ Proof      : coq/Props/C08.v over Model/Commit.v with cas = true and NO hypothes
              (lockkind Excl, Lease with arbitrary steal events, or GrantAll): the flip replaces exactly the
              version the committer validated (C08_ack_implies_validated), hence the chain/serializability
              theorems; a committer whose lease was taken away before the fence gets a conflict, never success.
+             Model/FlipFault.v adds the FAILING pointer write: the conditional PUT raises an error that is not the
+             store's refusal, applied by the store or not, anywhere in any interleaving (a request landing after its
+             client gave up = the same event later in the schedule); the committer's reaction is computed from the
+             regenerated tables gen_flip_exn / gen_tx_on (C08_failed_flip_reaction_regenerated); the chain theorems
+             hold for every such schedule (C08_faulted_no_lost_update) and a committer whose pointer write raised is
+             never acknowledged, whatever the pointer says afterwards (C08_failed_write_never_acknowledged).
 Tie        : trace validation of the real S3StorageBackend + MetadataManager.commit over an in-memory S3
              with conditional writes (harness/lib/mems3.py), under the scheduler, with a lock that grants
-             everyone; the projection demands that the validation read IS the read that yields the ETag.
-Oracle     : the serializability oracle of C01 on every explored schedule.
+             everyone and with the real lease lock; the projection demands that the validation read IS the read
+             that yields the ETag.  Faulted runs (one request-level failure of a committer's pointer PUT: not applied /
+             applied, response lost / in flight and landing at a scheduling point of its own; timeouts, connection
+             errors, 5xx) are projected onto Model/FlipFault.v and must be accepted by xrun_strict, agreeing on final
+             pointer, the store's order of applied writes, outcomes and who failed.
+Oracle     : the serializability oracle of C01 on every explored schedule; on faulted schedules the acknowledged-commits
+             oracle, judged from the STORE's own history of the pointer: acknowledged => the store applied that
+             committer's write, once, and it replaced the very content the committer validated; retryable conflict =>
+             not applied; final table = serial replay of the applied writes in the store's order.
 """
 from __future__ import annotations
 
 from typing import Any, Dict, List, Tuple
 
-from harness.lib import protocol as P, sched as S
+from harness.lib import coqbuild, protocol as P, sched as S
 from harness.props import c01
 
 LEVEL = "proof"
 THEOREMS = ["C08_ack_implies_validated", "C08_no_lost_update", "C08_fence", "C08_stolen_never_success",
-            "C08_cas_path_regenerated"]
+            "C08_cas_path_regenerated", "C08_failed_flip_reaction_regenerated", "C08_faulted_no_lost_update",
+            "C08_failed_write_never_acknowledged"]
 MANIFEST_ENTRY = {
     "level_text": "For CAS storage and ANY lock behaviour (exclusive, lease with arbitrary takeovers, or no exclusion at all) Coq "
                   "proves that every acknowledged flip replaced exactly the version its committer validated, so the committed "
                   "versions form one chain (no lost update), and that a committer whose lease was taken before the fence ends in "
-                  "a retryable conflict; real S3StorageBackend / MetadataManager code is trace-validated against the model over an "
-                  "in-memory conditional-write S3 under a deterministic scheduler with a grant-everyone lock",
+                  "a retryable conflict; the same chain theorems are proved for every schedule that also contains FAILING pointer writes "
+                  "(error other than the store's refusal, applied or not, landing anywhere), with the committer's reaction computed "
+                  "from the regenerated failure-class / handler tables, and a committer whose pointer write raised is proved never "
+                  "acknowledged; real S3StorageBackend / MetadataManager code is trace-validated against the model over an "
+                  "in-memory conditional-write S3 under a deterministic scheduler with a grant-everyone lock and the real lease lock, "
+                  "including a request-level failure of either committer's pointer PUT (not applied / response lost / in flight and "
+                  "landing later; timeouts, connection errors, 5xx) at every interleaving position with the other committer, judged "
+                  "by an acknowledged-commits oracle over the store's own pointer history",
     "level_note": "trusted: Coq kernel; translator/gen_commit.py (single ETag-bearing pointer read before validation, failure classes of the conditional write: C08_cas_path_regenerated); harness projection (validation read must be the ETag read); in-memory S3 is strongly "
                   "consistent with atomic conditional PUT (the property's premise); in-flight PUT delay = interleaving before the "
-                  "atomic landing; the real S3 lease lock is exercised by C19",
-    "technique": "Coq invariant proof (CAS, arbitrary lock) over translator-regenerated kernels + trace validation over a fake conditional-write S3",
+                  "atomic landing, and for a client that gave up on the request a landing event of its own (one fault per run); the fault "
+                  "injector at the boto surface (harness/lib/protocol.py s3_fault) and the store's put history (mems3.py); the real S3 "
+                  "lease lock's blocking loop / heartbeat is exercised by C19",
+    "technique": "Coq invariant proof (CAS, arbitrary lock, failing pointer writes) over translator-regenerated kernels + trace validation "
+                 "and request-level fault injection x schedule enumeration over a fake conditional-write S3",
     "design_ref": "DESIGN.md section 5 C08",
 }
+
+# ---------------------------------------------------------------------------------------------------------------------
+# failing pointer writes x schedules
+# ---------------------------------------------------------------------------------------------------------------------
+# how the conditional PUT of the pointer fails at the S3 request level (harness/lib/protocol.py, case["s3_fault"])
+FAULT_MODES = ["before",       # the request is not applied; the client gets an error that is not the store's refusal
+               "after",        # the request is applied; the response is lost
+               "inflight"]     # the client gives up; the request reaches the store LATER (actor "L"), precondition evaluated then
+FAULT_EXCS = ["timeout", "500", "connclosed", "503", "oserror", "reqtimeout", "connect"]
+XREQ = ["DS.Model.Commit", "DS.Model.FlipFault"]
+
+
+def _chooser_for(dev: Any):
+    """deviation list -> chooser factory (the forms used by this module's generators)."""
+    import random as _r
+    if dev and dev[0][0] == "random":
+        seed, prob = dev[0][1], (dev[0][2] if len(dev[0]) > 2 else 0.4)
+        return lambda sc: S.random_chooser(_r.Random(seed), prob)
+    if dev and dev[0][0] == "script":
+        return c01.script_chooser([tuple(x) for x in dev[0][1]])
+    return c01.dev_chooser({int(i): a for i, a in dev})
+
+
+def pointer_history(res: P.CaseResult) -> Tuple[List[Dict[str, Any]], Optional[str]]:
+    """What the STORE did to the pointer during the run, in order, whatever the clients were told: one entry per applied
+    PUT {owner, replaced, body, validated}; owner = the committer that wrote the metadata file the new pointer names,
+    validated = the pointer content that committer had read (with its ETag) under the lock before sending the request.
+    Second component: an inconsistency between the store's history and the clients' log, if any."""
+    writers: Dict[str, str] = {}
+    for e in res.log:
+        if e["op"] == "write_file" and P.path_class(e["path"]) == "meta" and e["actor"].startswith("A"):
+            writers[e["path"].rsplit("/", 1)[-1]] = e["actor"]
+    applied = [h for h in (res.store.history if res.store is not None else []) if h["key"].endswith(P.HINT)]
+    # the client-side view of the same writes, in the same order (one store, one scheduler step per request)
+    last_read: Dict[str, Any] = {}
+    sent_read: Dict[str, Any] = {}
+    senders: List[Tuple[str, Any]] = []
+    for e in res.log:
+        a, op = e["actor"], e["op"]
+        if op == "read_file_with_etag" and P.path_class(e["path"]) == "hint" and "MetadataManager.commit" in e["phase"]:
+            last_read[a] = e["result"]
+        elif op in ("write_file", "write_file_cas") and P.path_class(e["path"]) == "hint":
+            if e.get("s3_fault") == "inflight":
+                sent_read[a] = last_read.get(a)
+            elif e["result"] == "ok" or e.get("s3_fault") == "after":
+                senders.append((a, last_read.get(a)))
+        elif op == "Land" and e["result"] == "applied":
+            senders.append((str(e.get("for")), sent_read.get(str(e.get("for")))))
+    out = []
+    for k, h in enumerate(applied):
+        body = h["body"].decode("utf-8", "replace").strip()
+        out.append({"owner": writers.get(body), "body": body, "replaced": h["replaced"],
+                    "validated": senders[k][1] if k < len(senders) else None, "sender": senders[k][0] if k < len(senders) else None})
+    why = None
+    if len(senders) != len(applied):
+        why = f"the store applied {len(applied)} pointer write(s), the clients' log accounts for {len(senders)}"
+    return out, why
+
+
+def ack_oracle(case: Dict[str, Any], res: P.CaseResult) -> Optional[str]:
+    """Implementation-only judgement of the property on one run, from the store's own history of the pointer:
+       * a commit is acknowledged only if the store applied ITS pointer write (exactly one), and
+       * that write replaced the very pointer content the committer had validated against;
+       * a commit reported as a retryable conflict was not applied (a retry would apply it twice);
+       * the final table is the serial replay, in the store's order, of exactly the applied commits -- so no acknowledged
+         commit is overwritten.  A commit reported as ambiguous may be in the table or not."""
+    if res.deadlock:
+        return f"deadlock: {res.deadlock}"
+    hist, why = pointer_history(res)
+    if why:
+        return why
+    for h in hist:
+        if h["owner"] is None:
+            return f"the pointer was set to {h['body']!r}, a file no committer of this run wrote"
+        if h["owner"] != h["sender"]:
+            return f"pointer write by {h['sender']} names {h['body']!r}, written by {h['owner']}"
+    owners = [h["owner"] for h in hist]
+    for a, (st, d) in sorted(res.outcomes.items()):
+        if not a.startswith("A"):
+            continue
+        n = owners.count(a)
+        if st == "ok" and d != "noop" and n != 1:
+            return (f"{a}'s commit was acknowledged but the store applied {n} pointer write(s) of {a} (store's pointer history: "
+                    f"{[(h['owner'], h['body']) for h in hist]}): an acknowledged commit "
+                    + ("is not in the table (lost update)" if n == 0 else "was applied more than once"))
+        if st != "ok" and "ConcurrentModification" in d and n != 0:
+            return f"{a} reported a retryable conflict although the store applied its pointer write ({n}x)"
+        if st == "ok" and d == "noop" and n != 0:
+            return f"{a} reported that nothing was to be done, yet the store applied a pointer write of {a}"
+    for h in hist:
+        # (a committer whose validation read the log does not show is the correspondence's business: Nonconforming there)
+        if h["validated"] is not None and bytes(h["replaced"] or b"") != bytes(h["validated"]):
+            return (f"{h['owner']}'s pointer write replaced {h['replaced']!r} but {h['owner']} had validated against "
+                    f"{h['validated']!r}")
+    return c01.serial_oracle(case, res, flips=owners)
+
+
+def _fault_case(ops: Any, lock: str, victim: str, mode: str, exc: str, nth: int = 1, clock: str = "tick", **extra: Any) -> Dict[str, Any]:
+    case = {"ops": ops, "clock": clock, "topology": "separate", "backend": "s3cas", "lock": lock,
+            "s3_fault": {"op": "put_object", "cls": "hint", "actor": victim, "nth": nth, "when": mode, "exc": exc}}
+    case.update(extra)
+    return case
+
+
+def fault_runs(ctx, quick: bool) -> List[Tuple[Dict[str, Any], Any, P.CaseResult]]:
+    """A failing pointer write (not applied / applied / still in flight, every error kind, first or second attempt) of either
+    committer at EVERY interleaving position with the other committer's commit (and, for a request in flight, with its
+    landing), under a lock that gives no exclusion and under the real lease lock with lease lapses; bounded-preemption
+    enumeration and random schedules of three committers on top."""
+    runs: List[Tuple[Dict[str, Any], Any, P.CaseResult]] = []
+    kexc = [0]
+
+    def next_exc() -> str:
+        kexc[0] += 1
+        return FAULT_EXCS[kexc[0] % len(FAULT_EXCS)]
+
+    def go(case: Dict[str, Any], dev: Any, tag: str = "c08f") -> P.CaseResult:
+        res = P.run_case(ctx.scratch, c01._fix_case(case), _chooser_for(list(dev)), tag=tag)
+        runs.append((case, list(dev), res))
+        return res
+
+    opsets = c01.OPSETS[:3] if quick else c01.OPSETS
+    for oi, ops in enumerate(opsets):
+        for victim, other in (("A0", "A1"), ("A1", "A0")):
+            for mode in FAULT_MODES:
+                for nth in ((1,) if quick and oi else (1, 2)):
+                    case = _fault_case(ops, "grant_all", victim, mode, next_exc(), nth)
+                    lead = [] if victim == "A0" else [(0, victim)]       # the victim moves first, the other commits in between
+                    base = go(case, lead)
+                    n = len(base.schedule)
+                    for i in range(1, n + 1):
+                        res = go(case, lead + [(i, other)])
+                        if mode == "inflight":
+                            # the landing of the request at positions of its own: right away, and at (a sample of) every later point
+                            js = [j for j in range(i + 1, len(res.schedule)) if "L" in res.enabled_at[j] and res.schedule[j] != "L"]
+                            kmax = 3 if quick else 6
+                            if len(js) > kmax:
+                                js = sorted(ctx.rng.sample(js, kmax))
+                            for j in js:
+                                go(case, lead + [(i, other), (j, "L")])
+                    if mode == "inflight":
+                        js = [j for j in range(1, n) if "L" in base.enabled_at[j] and base.schedule[j] != "L"]
+                        for j in (js[:2] if quick else js):
+                            go(case, lead + [(j, "L")])
+        # bounded-preemption enumeration on top of the directed schedules
+        for mode in FAULT_MODES:
+            case = _fault_case(ops, "grant_all", "A0", mode, next_exc())
+            for dev, res in c01.explore(ctx, case, 2, 12 if quick else 150):
+                runs.append((case, list(dev), res))
+    # the real conditional-write lease lock: the lease lapses (clock actor K jumps past it) and the other committer takes the
+    # lock over at every point of the victim's commit -- in particular between its fence and its (failing) pointer write
+    for ops in (c01.OPSETS[:2] if quick else c01.OPSETS[:4]):
+        for mode in FAULT_MODES:
+            case = _fault_case(ops, "real", "A0", mode, next_exc(), clock_actor={"jumps": 1, "ms": 61000})
+            base = go(case, [], tag="c08fl")
+            n0 = sum(1 for a in base.schedule if a == "A0")
+            for i in range(1, n0 + 1):
+                go(case, [(i, "K"), (i + 1, "K"), (i + 2, "A1")], tag="c08fl")
+            if not quick:
+                for dev, res in c01.explore(ctx, case, 2, 150):
+                    runs.append((case, list(dev), res))
+    # random schedules, three and four committers
+    for i in range(24 if quick else 400):
+        ops = c01.OPSETS3[i % len(c01.OPSETS3)]
+        case = _fault_case(ops, "grant_all", f"A{ctx.rng.randrange(len(ops))}", ctx.rng.choice(FAULT_MODES), ctx.rng.choice(FAULT_EXCS),
+                           nth=ctx.rng.choice([1, 1, 2]), clock=ctx.rng.choice(["tick", "coarse", "frozen"]),
+                           s3_conflict=ctx.rng.choice(["412", "409", "alt"]))
+        seed = ctx.rng.randrange(1 << 30)
+        go(case, [("random", seed, 0.4)], tag="c08fr")
+    return runs
+
+
+def _xev(ai: int, k: str) -> str:
+    if k.startswith("XFlipErr"):
+        return f"XFlipErr {ai}%nat {k.split()[1]}"
+    if k == "XUnwind":
+        return f"XUnwind {ai}%nat"
+    return f"XE {{| e_actor := {ai}%nat; e_kind := {c01._nat_args(k)} |}}"
+
+
+def xmodel_expr(case: Dict[str, Any], res: P.CaseResult, events: List[Tuple[int, str]]) -> str:
+    n = len(case["ops"])
+    kinds = " ".join(f"| {i}%nat => {c01.kind_of(op)[0]}" for i, op in enumerate(case["ops"]))
+    maxrs = " ".join(f"| {i}%nat => {c01.kind_of(op)[1]}%nat" for i, op in enumerate(case["ops"]))
+    lu0 = res.initial["meta"]["last_updated_ms"]
+    cfgs = "{| cas := true; lockkind := %s |}" % ("GrantAll" if case.get("lock") == "grant_all" else "Lease")
+    evs = "[" + "; ".join(_xev(ai, k) for ai, k in events) + "]"
+    return (f"match xrun_strict {cfgs} false (xinit (init_world {{| m_ops := []; m_cur := 1; m_lu := {lu0} |}} "
+            f"(fun a => match a with {kinds} | _ => KKeep end) (fun a => match a with {maxrs} | _ => 1%nat end))) {evs} 0%nat with "
+            f"| inl X => (1, xsummary X {n}%nat) | inr i => (0, (i, [], [], [], [])) end")
+
+
+def check_fault_runs(ctx, name: str, runs: List[Tuple[Dict[str, Any], Any, P.CaseResult]]) -> None:
+    exprs, kept, bad = [], [], []
+    fired = {m: 0 for m in FAULT_MODES}
+    seen_violation_keys = set()
+    for case, dev, res in runs:
+        sf = case["s3_fault"]
+        ctx.count(1, (name, repr(case["ops"]), case.get("lock"), repr(sorted(sf.items())), tuple(res.schedule)))
+        for e in res.log:
+            if e.get("s3_fault"):
+                fired[e["s3_fault"]] += 1
+        why = ack_oracle(case, res)
+        if why:
+            key = (f"ptr-fault:{sf['when']}:{case.get('lock')}:"
+                   + "+".join(o["kind"] + ("-" + o["which"] if "which" in o else "") for o in case["ops"]))
+            if key not in seen_violation_keys:
+                seen_violation_keys.add(key)
+                ctx.violation(key, why, {"case": c01._case_json(case), "deviations": list(dev), "schedule": res.schedule, "outcomes": res.outcomes})
+        try:
+            events, vids, _notes = P.project(res, len(case["ops"]), cas=True, lease=(case.get("lock", "real") == "real"), faults=True)
+        except P.Nonconforming as e:
+            bad.append({"case": c01._case_json(case), "deviations": list(dev), "schedule": res.schedule, "nonconforming": str(e)})
+            continue
+        exprs.append(xmodel_expr(case, res, events))
+        kept.append((case, dev, res, events, vids))
+    vals = coqbuild.coq_eval(XREQ, exprs, chunk=60) if exprs else []
+    for (case, dev, res, events, vids), val in zip(kept, vals):
+        ok, (ptr_or_idx, _ops_final, hist, codes, failed) = val
+        if ok != 1:
+            i = ptr_or_idx
+            bad.append({"case": c01._case_json(case), "deviations": list(dev), "schedule": res.schedule, "rejected_event_index": i,
+                        "event": events[i] if i < len(events) else None, "events": events[:i + 1][-8:]})
+            continue
+        phist, _why = pointer_history(res)
+        owners = [int(h["owner"][1:]) for h in phist if h["owner"]]
+        final_vid = vids.get(res.final.get("pointer"), -1)
+        exp_codes, exp_failed = [], []
+        for i in range(len(case["ops"])):
+            st, d = res.outcomes[f"A{i}"]
+            if st == "ok":
+                exp_codes.append(0 if d == "noop" else 1)
+            elif "ConcurrentModification" in d:
+                exp_codes.append(2)
+            elif "AmbiguousCommitError" in d:
+                exp_codes.append(5 if i in owners else 4)
+            else:
+                exp_codes.append(-1)            # an outcome the model has no word for
+        for e in res.log:
+            if e.get("s3_fault") in ("before", "after") or (e["op"] == "Land"):
+                exp_failed.append(int((e["actor"] if e["op"] != "Land" else str(e.get("for")))[1:]))
+        if ptr_or_idx != final_vid or [a for (_v, a) in hist] != owners or list(codes) != exp_codes or list(failed) != exp_failed:
+            bad.append({"case": c01._case_json(case), "deviations": list(dev), "schedule": res.schedule,
+                        "model": {"ptr": ptr_or_idx, "hist": hist, "codes": codes, "failed": failed},
+                        "impl": {"ptr": final_vid, "applied": owners, "codes": exp_codes, "failed": exp_failed, "outcomes": res.outcomes}})
+    ctx.stats["pointer_write_faults_fired"] = fired
+    ctx.stats["faulted_schedules"] = len(runs)
+    ctx.correspondence(name, len(runs), bad)
 
 
 def run(ctx) -> None:
     ctx.rule = ("schedules of 2-3 committers at storage-operation granularity on S3StorageBackend over an in-memory "
                 "conditional-write S3, (a) with a lock granting everyone, (b) with the real S3LockProvider (one attempt per "
                 "scheduler step) and a clock actor jumping past the 60 s lease at every point of a commit (lease lapse, takeover, "
-                "stale holder resuming); bounded-preemption enumeration + directed + random; distinct = executed schedule")
+                "stale holder resuming); bounded-preemption enumeration + directed + random; (c) one request-level failure of a "
+                "committer's pointer PUT {not applied, applied with the response lost, in flight and landing later} x {read timeout, "
+                "connection closed / refused / reset, 500, 503, 400 RequestTimeout} x {first, second attempt} x either committer, with "
+                "the other committer's whole commit (and the landing) at every position, under (a) and (b), + enumeration + random "
+                "3-4 committers; distinct = executed schedule per case")
     ctx.trusted_base += ["harness/lib/sched.py, protocol.py, mems3.py (strongly consistent in-memory S3 with If-Match / If-None-Match)"]
     ctx.assumptions += ["conditional PUT is atomic and the store is strongly consistent (property premise)"]
     ctx.proofs(THEOREMS, gen_files=["GenCommit.v"])
@@ -76,12 +351,14 @@ def run(ctx) -> None:
                 "s3_conflict": ctx.rng.choice(["412", "409", "alt"])}
         seed = ctx.rng.randrange(1 << 30)
         res = P.run_case(ctx.scratch, c01._fix_case(case), lambda sc, seed=seed: S.random_chooser(_r.Random(seed), 0.4), tag="c08r")
-        runs.append((case, [("random", seed)], res))
+        runs.append((case, [("random", seed, 0.4)], res))
+    # the pointer write itself fails (request level), at every interleaving position with the other committer
+    fruns = fault_runs(ctx, quick)
     # implementation-level statement of "a committer that lost its lock before the commit point reports a retryable
     # conflict, never success": with the real lease lock, once another committer has taken the lock over, the fence of the
     # previous holder (its is_held() just before the pointer write) must answer False -- judged on the storage log alone
     stolen_fences = 0
-    for case, dev, res in runs:
+    for case, dev, res in runs + fruns:
         if case.get("lock") != "real":
             continue
         holder = None
@@ -109,6 +386,10 @@ def run(ctx) -> None:
         c, d, r = runs[len(runs) // 3]
         ctx.sample({"case": c01._case_json(c), "schedule": r.schedule, "outcomes": r.outcomes})
     try:
+        check_fault_runs(ctx, "s3cas-ptr-fault-trace", fruns)
+    except RuntimeError as e:
+        ctx.proof_problems.append("model evaluation failed (failing pointer writes): " + str(e)[:800])
+    try:
         c01.check_runs(ctx, "s3cas-trace", runs)
     except RuntimeError as e:
         ctx.proof_problems.append("model evaluation failed: " + str(e)[:800])
@@ -133,10 +414,15 @@ def _fence_after_takeover(res: P.CaseResult) -> List[str]:
 
 
 def replay(ctx, payload) -> int:
-    if str(payload.get("key", "")).startswith("fence-passed-after-takeover"):
-        c = payload["case"]
-        res = P.run_case(ctx.scratch, c01._fix_case(c["case"]), c01.dev_chooser({int(i): a for i, a in c.get("deviations", [])}), tag="replay")
+    key = str(payload.get("key", ""))
+    c = payload.get("case") or {}
+    if not c.get("case"):
+        return c01.replay(ctx, payload)
+    res = P.run_case(ctx.scratch, c01._fix_case(c["case"]), _chooser_for(c.get("deviations", [])), tag="replay")
+    if key.startswith("fence-passed-after-takeover"):
         bad = _fence_after_takeover(res)
         print("replay:", f"STILL FAILS: fence answered True after a takeover for {bad}" if bad else "passes now")
         return 1 if bad else 0
-    return c01.replay(ctx, payload)
+    why = ack_oracle(c["case"], res) if key.startswith("ptr-fault") else c01.serial_oracle(c["case"], res)
+    print("replay:", "STILL FAILS: " + why if why else "passes now")
+    return 1 if why else 0
